@@ -85,7 +85,7 @@ sim_sched_init(int nthreads, uint64_t seed, int strat, const char *list, int pct
 		long cap = (long) strlen(list) + 1;
 		explicit_list = calloc((size_t) cap, sizeof(int));
 		for (const char *p = list; *p; p++) {
-			if (*p >= '0' && *p <= '9')
+			if (*p >= '0' && *p < '0' + SIM_MAX_THREADS)
 				explicit_list[nexplicit++] = *p - '0';
 		}
 	}
